@@ -360,6 +360,9 @@ impl Target {
                     }
                 };
 
+                // Only an assignment to the whole variable makes its value a known constant. After
+                // `x.a = 5` the variable `x` holds the previous value with `5` inserted, not `5`.
+                let value = if path.is_root() { value } else { None };
                 let details = Details { type_def, value };
                 state.local.insert_variable(ident.clone(), details);
             }
